@@ -343,7 +343,8 @@ SPEC = PropSpec(
                  "through comparisons, so the ordering classes {below, each knot, each open interval, above} for 1..4 "
                  "knots x order {0,1} x extrapolate are a complete partition - expected values come from the "
                  "checker's own closed forms. Plus effect analysis: calibrators are stateless. Does not decide "
-                 "floating-point rounding of calibration results."),
+                 "floating-point rounding of calibration results."
+                 ' Polynomials and enumerations are also evaluated as declared in a document (repeated exponents summed; enumeration values beyond 2**53, zero, all-ones).'),
     rule_doc="one obligation per family/configuration; each covers all its ordering classes / match subsets",
     assumptions=["CPython float arithmetic (executed natively on extracted expressions)",
                  "criteria evaluation is correct (C06)", "the raw integer read is correct (C03/C04)"],
